@@ -483,18 +483,23 @@ Proof.
     unfold adapter_check; rewrite E, Hk; reflexivity.
 Qed.
 
-(* once the reply is in, the first error held back is raised, the request is forgotten (so no
-   reply can be outstanding for it) and the other errors are back at the head of the queue *)
-Theorem wait_rpc_reply_then_return sc s c v0 v u f l h more :
+(* once the reply is in the wait ends normally - the reply first in line, nothing forgotten - and
+   the errors held back are at the head of the queue again, for the operation that follows *)
+Theorem wait_rpc_reply_requeues sc s c v0 v u f l held :
   get_chan (s_chans s) c = Some v -> resp_get (c_resp v) u = Some (f :: l) ->
-  exists s' v', wait_rpc sc s c v0 u false (h :: more) = (s', v', Raise h, sc) /\
+  exists s' v', wait_rpc sc s c v0 u false held = (s', v', Ok tt, sc) /\
                 get_chan (s_chans s') c = Some v' /\
-                c_errs v' = more ++ c_errs v /\
-                c_req v' = req_del_uuid (c_req v) u /\ c_resp v' = resp_del (c_resp v) u /\
+                c_errs v' = held ++ c_errs v /\
+                c_req v' = c_req v /\ resp_get (c_resp v') u = Some (f :: l) /\
                 s_out s' = s_out s.
 Proof.
-  intros Hreg Hr. destruct sc; cbn [wait_rpc]; unfold cur; rewrite Hreg, Hr;
-    (eexists _, _; split; [reflexivity|]; split; [eapply upd_same; exact Hreg|]; cbn;
-     repeat split; auto;
-     match goal with |- context [upd s c ?x] => now destruct (upd_conn s c x) as (_ & _ & O & _) end).
+  intros Hreg Hr.
+  assert (E : wait_rpc sc s c v0 u false held =
+              (let '(s3, v3) := requeue s c v held in (s3, v3, Ok tt, sc))).
+  { destruct sc; cbn [wait_rpc]; unfold cur; rewrite Hreg, Hr; reflexivity. }
+  rewrite E. destruct held as [|h more]; cbn [requeue].
+  - eexists _, _. split; [reflexivity|]. repeat split; auto.
+  - eexists _, _. split; [reflexivity|]. split; [eapply upd_same; exact Hreg|]. cbn.
+    repeat split; auto;
+    try (match goal with |- context [upd s c ?x] => now destruct (upd_conn s c x) as (_ & _ & O & _) end).
 Qed.
